@@ -408,6 +408,12 @@ class LuaParser:
                 k = self.take("name")
                 self.i += 1
                 items.append((k, self.expr()))
+            elif self.at("op", "["):                      # [expr] = value
+                self.i += 1
+                k = self.expr()
+                self.take("op", "]")
+                self.take("op", "=")
+                items.append((k, self.expr()))
             else:
                 items.append((None, self.expr()))
             if self.at("op", ",") or self.at("op", ";"):
